@@ -162,6 +162,32 @@ Proof.
   - split; vm_compute; reflexivity.
 Qed.
 
+(** Former known finding C04-absent-duplicate-matcher (fixed by 06b3093): [absent(foo{a!="x", a="1"})] and
+    [absent((foo{a="1"}))] return [{a="1"}] (the engine walks the matchers in order and unwraps parentheses) while the
+    analyser said the result cannot have "a".  absentLabels now does the engine's walk: both expressions are inside
+    [wf] (no restriction on the selector handed to absent() is left), so [C04_sound] covers them, and the branch can
+    have "a". *)
+Definition m_eq (n v : string) : matcher := {| m_type := MEq; m_name := n; m_value := v |}.
+Definition ex_abs_dup : expr :=
+  ECall "absent" [VVector] [ESel [{| m_type := MNe; m_name := "a"; m_value := "x" |}; m_eq "a" "1"; m_eq "__name__" "foo"]].
+Definition ex_abs_paren : expr := ECall "absent" [VVector] [EParen (ESel [m_eq "a" "1"; m_eq "__name__" "foo"])].
+
+Example C04_absent_labels_follow_engine :
+  wf ex_abs_dup = true /\ wf ex_abs_paren = true /\
+  Sem [] ex_abs_dup (RVec [[("a", "1")]]) /\ Sem [] ex_abs_paren (RVec [[("a", "1")]]) /\
+  (forall s, In s (walk_node (fun _ _ => nan) (fun _ _ => nan) ex_abs_dup) -> can_have_label s "a" = true) /\
+  (forall s, In s (walk_node (fun _ _ => nan) (fun _ _ => nan) ex_abs_paren) -> can_have_label s "a" = true).
+Proof.
+  split; [reflexivity|]. split; [reflexivity|]. split; [|split; [|split]].
+  - apply (SemNode [] ex_abs_dup [RVec []] (RVec [[("a", "1")]])); [|vm_compute; reflexivity].
+    constructor; [|constructor]. apply (SemNode [] _ [] (RVec [])); [constructor | vm_compute; reflexivity].
+  - apply (SemNode [] ex_abs_paren [RVec []] (RVec [[("a", "1")]])); [|vm_compute; reflexivity].
+    constructor; [|constructor]. apply (SemNode [] _ [RVec []] (RVec [])); [|vm_compute; reflexivity].
+    constructor; [|constructor]. apply (SemNode [] _ [] (RVec [])); [constructor | vm_compute; reflexivity].
+  - intros s Hin. vm_compute in Hin. destruct Hin as [<-|[]]. reflexivity.
+  - intros s Hin. vm_compute in Hin. destruct Hin as [<-|[]]. reflexivity.
+Qed.
+
 (** Non-vacuity: the premises are satisfiable with a non-empty result, and the analyser really excludes a label:
     [sum by (job) (foo)] on a database holding one foo series returns {job="j"}; label "instance" is reported. *)
 Definition ex_sum : expr := EAgg ASum false ["job"] None ex_foo.
